@@ -468,11 +468,271 @@ theorem gjkBody3_noIntersection_sound (hs : LawfulSqrt sq) (C : V3 K → Prop) (
       | (simp only [GjkStep3.exit.injEq, GjkRes3.noIntersection.injEq] at h
          obtain ⟨hd, _⟩ := h
          subst hd
-         have hdec : decide (md < -dir.dot (fs dir).point) = true := by assumption
-         have hlt : md < -(dir.dot (fs dir).point) := by simpa using hdec
+         have hdec : optLt (some md) (-dir.dot (fs dir).point) = true := by assumption
+         have hlt : md < -(dir.dot (fs dir).point) := by simpa [optLt] using hdec
          have hb := gjk_lower_bound3 C dir (-(dir.dot (fs dir).point)) hunit (by linarith)
            (fun c hc => by have := hsup dir c hc; simp only [V3.dot]; linarith) c hcC
          nlinarith)
       | (split at h <;> (try split at h) <;> (try split_ifs at h) <;> simp at h)
+
+/-- **which exits return `ClosestPoints`, and with what** (3-D loop body, `exact_dist = true`): exactly the four return sites of
+the Rust loop — (a) "upper bounds inconsistencies" (previous iterate, previous direction), (b) the precision test
+`max_bound - min_bound ≤ ε_rel·max_bound` (current simplex, untouched), (c) `add_point` refused the support point,
+(d) the simplex became a tetrahedron while `min_bound ≥ ε_tol` (previous iterate). -/
+theorem gjkBody3_closest_cases {K : Type} [Num K] (fs : V3 K → CSO3 K) (maxDist : Option K) (s s' : Vs3 K)
+    (proj oldDir p1 p2 d : V3 K) (maxBound : Option K) :
+    gjkBody3 fs maxDist true s proj oldDir maxBound = .exit (.closest p1 p2 d) s' →
+    ∃ dir mb, tryNewAndGet3 proj.neg epsTol = some (dir, mb) ∧
+      ((d = oldDir ∧ p1 = (s.result true).1 ∧ p2 = (s.result true).2 ∧ s' = s ∧ ∃ old, maxBound = some old ∧ old ≤ mb) ∨
+       (d = dir ∧ p1 = (s.result false).1 ∧ p2 = (s.result false).2 ∧ s' = s ∧
+          mb - (-(dir.dot (fs dir).point)) ≤ Num.sqrt epsTol * mb) ∨
+       (d = dir ∧ ∃ s1, s.addPoint (fs dir) = some (s1, false) ∧ p1 = (s1.result false).1 ∧ p2 = (s1.result false).2 ∧ s' = s1) ∨
+       (d = dir ∧ ∃ s1 s2 pr, s.addPoint (fs dir) = some (s1, true) ∧ s1.projectOriginAndReduce = some (s2, pr) ∧ s2.dim = 3 ∧
+          epsTol ≤ -(dir.dot (fs dir).point) ∧ p1 = (s2.result true).1 ∧ p2 = (s2.result true).2 ∧ s' = s2)) := by
+  intro h
+  unfold gjkBody3 at h
+  rcases ht : tryNewAndGet3 proj.neg epsTol with _ | ⟨dir, mb⟩
+  · rw [ht] at h; simp at h
+  · rw [ht] at h
+    refine ⟨dir, mb, rfl, ?_⟩
+    dsimp only at h
+    by_cases c1 : optLe maxBound mb = true
+    · rw [if_pos c1] at h
+      simp only [↓reduceIte, GjkStep3.exit.injEq, GjkRes3.closest.injEq] at h
+      obtain ⟨⟨e1, e2, e3⟩, e4⟩ := h
+      refine Or.inl ⟨e3.symm, e1.symm, e2.symm, e4.symm, ?_⟩
+      cases maxBound with
+      | none => simp [optLe] at c1
+      | some old => exact ⟨old, rfl, by simpa [optLe] using c1⟩
+    · rw [if_neg c1] at h
+      by_cases c2 : (!isFinite (-dir.dot (fs dir).point)) = true
+      · rw [if_pos c2] at h; simp at h
+      · rw [if_neg c2] at h
+        by_cases c3 : optLt maxDist (-dir.dot (fs dir).point) = true
+        · rw [if_pos c3] at h; simp at h
+        · rw [if_neg c3] at h
+          simp only [Bool.not_true, Bool.false_and, Bool.false_eq_true, ↓reduceIte] at h
+          by_cases c4 : mb - -dir.dot (fs dir).point ≤ Num.sqrt epsTol * mb
+          · rw [if_pos c4] at h
+            simp only [GjkStep3.exit.injEq, GjkRes3.closest.injEq] at h
+            obtain ⟨⟨e1, e2, e3⟩, e4⟩ := h
+            exact Or.inr (Or.inl ⟨e3.symm, e1.symm, e2.symm, e4.symm, c4⟩)
+          · rw [if_neg c4] at h
+            rcases ha : s.addPoint (fs dir) with _ | ⟨s1, b⟩
+            · rw [ha] at h; simp at h
+            · rw [ha] at h
+              cases b with
+              | false =>
+                simp only [↓reduceIte, GjkStep3.exit.injEq, GjkRes3.closest.injEq] at h
+                obtain ⟨⟨e1, e2, e3⟩, e4⟩ := h
+                exact Or.inr (Or.inr (Or.inl ⟨e3.symm, s1, rfl, e1.symm, e2.symm, e4.symm⟩))
+              | true =>
+                dsimp only at h
+                rcases hp : s1.projectOriginAndReduce with _ | ⟨s2, pr⟩
+                · rw [hp] at h; simp at h
+                · rw [hp] at h
+                  dsimp only at h
+                  by_cases c5 : s2.dim = 3
+                  · rw [if_pos c5] at h
+                    by_cases c6 : epsTol ≤ -dir.dot (fs dir).point
+                    · rw [if_pos c6] at h
+                      simp only [↓reduceIte, GjkStep3.exit.injEq, GjkRes3.closest.injEq] at h
+                      obtain ⟨⟨e1, e2, e3⟩, e4⟩ := h
+                      exact Or.inr (Or.inr (Or.inr ⟨e3.symm, s1, s2, pr, rfl, hp, c5, c6, e1.symm, e2.symm, e4.symm⟩))
+                    · rw [if_neg c6] at h; simp at h
+                  · rw [if_neg c5] at h; simp at h
+
+/-- **certificate of the precision exit** (3-D): with `dir = -proj/|proj|`, `max_bound = |proj|` and the support contract, the
+test `max_bound - min_bound ≤ ε_rel·max_bound` (`0 ≤ ε_rel ≤ 1`) implies that every point of the obstacle is at least
+`(1 - ε_rel)·max_bound` from the origin, while `proj` (a point of the obstacle when the simplex vertices are) is exactly
+`max_bound` away: the reported gap `|w1 - w2| = |proj|` overestimates the true separation by at most the factor `ε_rel`. -/
+theorem gjk_precise_certificate3 (hs : LawfulSqrt sq) (C : V3 K → Prop) (fs : V3 K → CSO3 K) (hsup : SupportsCSO3 C fs)
+    (proj dir : V3 K) (mb epsRel : K) (h0 : 0 ≤ epsRel) (h1 : epsRel ≤ 1) :
+    letI := fieldNum K sq
+    tryNewAndGet3 proj.neg epsTol = some (dir, mb) →
+    mb - (-(dir.dot (fs dir).point)) ≤ epsRel * mb →
+    mb * mb = proj.x * proj.x + proj.y * proj.y + proj.z * proj.z ∧
+    ∀ c, C c → ((1 - epsRel) * mb) * ((1 - epsRel) * mb) ≤ c.x * c.x + c.y * c.y + c.z * c.z := by
+  letI := fieldNum K sq
+  intro ht htest
+  obtain ⟨hunit, hmb, hnn, _⟩ := tryNewAndGet3_spec sq hs proj.neg dir epsTol mb ht
+  refine ⟨by rw [hnn]; simp only [V3.neg]; ring, ?_⟩
+  have hlow : (1 - epsRel) * mb ≤ -(dir.dot (fs dir).point) := by linarith
+  exact gjk_lower_bound3 C dir ((1 - epsRel) * mb) hunit (mul_nonneg (by linarith) hmb.le)
+    (fun c hc => by have := hsup dir c hc; simp only [V3.dot] at hlow; linarith)
+
+/-! ### the same in 2-D -/
+
+/-- `Unit::try_new_and_get` (2-D) returns a unit vector, the norm, and `v = norm · dir` -/
+theorem tryNewAndGet2_spec (hs : LawfulSqrt sq) (v d : V2 K) (m n : K) :
+    letI := fieldNum K sq
+    tryNewAndGet2 v m = some (d, n) →
+    d.x * d.x + d.y * d.y = 1 ∧ 0 < n ∧ n * n = v.x * v.x + v.y * v.y ∧
+    v.x = d.x * n ∧ v.y = d.y * n := by
+  letI := fieldNum K sq
+  intro h
+  simp only [tryNewAndGet2] at h
+  split_ifs at h with hlt
+  simp only [Option.some.injEq, Prod.mk.injEq] at h
+  obtain ⟨rfl, rfl⟩ := h
+  have enq : v.normSq = v.x * v.x + v.y * v.y := rfl
+  rw [enq] at hlt ⊢
+  have hpos : 0 < v.x * v.x + v.y * v.y := lt_of_le_of_lt (mul_self_nonneg m) hlt
+  have hn := hs.sq_mul _ hpos.le
+  have hn0 := hs.nonneg _ hpos.le
+  have hne : sq (v.x * v.x + v.y * v.y) ≠ 0 := by
+    intro e; rw [e] at hn; linarith
+  have hnpos : 0 < sq (v.x * v.x + v.y * v.y) := lt_of_le_of_ne hn0 (Ne.symm hne)
+  refine ⟨?_, hnpos, hn, ?_, ?_⟩
+  · simp only [V2.sdiv]
+    have : @Num.sqrt K (fieldNum K sq) (v.x * v.x + v.y * v.y) = sq (v.x * v.x + v.y * v.y) := rfl
+    rw [this]
+    generalize sq (v.x * v.x + v.y * v.y) = N at hn hne
+    have key : v.x / N * (v.x / N) + v.y / N * (v.y / N) =
+        (v.x * v.x + v.y * v.y) / (N * N) := by field_simp
+    rw [key, hn, div_self (ne_of_gt hpos)]
+  · simp only [V2.sdiv]; exact (div_mul_cancel₀ _ hne).symm
+  · simp only [V2.sdiv]; exact (div_mul_cancel₀ _ hne).symm
+
+/-- the support contract of `CSOPoint::from_shapes` with respect to an obstacle `C` (the set `A ⊖ pos12·B`): the returned
+point maximises the dot product with the direction over `C` (C10 proves it for the modelled support maps). -/
+def SupportsCSO2 (C : V2 K → Prop) (fs : V2 K → CSO2 K) : Prop :=
+  ∀ dir c, C c → dir.x * c.x + dir.y * c.y ≤
+    dir.x * (fs dir).point.x + dir.y * (fs dir).point.y
+
+/-- **exit `NoIntersection(dir)` is sound** (2-D loop body): when the body leaves with `NoIntersection`, every point of the
+obstacle is farther than `max_dist` from the origin, i.e. the two shapes are more than `max_dist` apart. -/
+theorem gjkBody2_noIntersection_sound (hs : LawfulSqrt sq) (C : V2 K → Prop) (fs : V2 K → CSO2 K) (hsup : SupportsCSO2 C fs)
+    (md : K) (hmd : 0 ≤ md) (exact : Bool) (s s' : Vs2 K) (proj oldDir d : V2 K) (maxBound : Option K) :
+    letI := fieldNum K sq
+    gjkBody2 fs (some md) exact s proj oldDir maxBound = .exit (.noIntersection d) s' →
+    ∀ c, C c → md * md < c.x * c.x + c.y * c.y := by
+  letI := fieldNum K sq
+  intro h c hcC
+  unfold gjkBody2 at h
+  rcases ht : tryNewAndGet2 proj.neg epsTol with _ | ⟨dir, mb⟩
+  · rw [ht] at h; simp at h
+  · rw [ht] at h
+    obtain ⟨hunit, _, _, _⟩ := tryNewAndGet2_spec sq hs proj.neg dir epsTol mb ht
+    dsimp only at h
+    split_ifs at h with h1 h2 h3 h4 h5
+    all_goals first
+      | (simp only [GjkStep2.exit.injEq, GjkRes2.noIntersection.injEq, reduceCtorEq, false_and, and_false] at h; done)
+      | skip
+    all_goals first
+      | (simp only [GjkStep2.exit.injEq, GjkRes2.noIntersection.injEq] at h
+         obtain ⟨hd, _⟩ := h
+         subst hd
+         have hdec : optLt (some md) (-dir.dot (fs dir).point) = true := by assumption
+         have hlt : md < -(dir.dot (fs dir).point) := by simpa [optLt] using hdec
+         have hb := gjk_lower_bound2 C dir (-(dir.dot (fs dir).point)) hunit (by linarith)
+           (fun c hc => by have := hsup dir c hc; simp only [V2.dot]; linarith) c hcC
+         nlinarith)
+      | (split at h <;> (try split at h) <;> (try split_ifs at h) <;> simp at h)
+
+/-- **which exits return `ClosestPoints`, and with what** (2-D loop body, `exact_dist = true`): exactly the four return sites of
+the Rust loop — (a) "upper bounds inconsistencies" (previous iterate, previous direction), (b) the precision test
+`max_bound - min_bound ≤ ε_rel·max_bound` (current simplex, untouched), (c) `add_point` refused the support point,
+(d) the simplex became a triangle while `min_bound ≥ ε_tol` (previous iterate). -/
+theorem gjkBody2_closest_cases {K : Type} [Num K] (fs : V2 K → CSO2 K) (maxDist : Option K) (s s' : Vs2 K)
+    (proj oldDir p1 p2 d : V2 K) (maxBound : Option K) :
+    gjkBody2 fs maxDist true s proj oldDir maxBound = .exit (.closest p1 p2 d) s' →
+    ∃ dir mb, tryNewAndGet2 proj.neg epsTol = some (dir, mb) ∧
+      ((d = oldDir ∧ p1 = (s.result true).1 ∧ p2 = (s.result true).2 ∧ s' = s ∧ ∃ old, maxBound = some old ∧ old ≤ mb) ∨
+       (d = dir ∧ p1 = (s.result false).1 ∧ p2 = (s.result false).2 ∧ s' = s ∧
+          mb - (-(dir.dot (fs dir).point)) ≤ Num.sqrt epsTol * mb) ∨
+       (d = dir ∧ ∃ s1, s.addPoint (fs dir) = some (s1, false) ∧ p1 = (s1.result false).1 ∧ p2 = (s1.result false).2 ∧ s' = s1) ∨
+       (d = dir ∧ ∃ s1 s2 pr, s.addPoint (fs dir) = some (s1, true) ∧ s1.projectOriginAndReduce = some (s2, pr) ∧ s2.dim = 2 ∧
+          epsTol ≤ -(dir.dot (fs dir).point) ∧ p1 = (s2.result true).1 ∧ p2 = (s2.result true).2 ∧ s' = s2)) := by
+  intro h
+  unfold gjkBody2 at h
+  rcases ht : tryNewAndGet2 proj.neg epsTol with _ | ⟨dir, mb⟩
+  · rw [ht] at h; simp at h
+  · rw [ht] at h
+    refine ⟨dir, mb, rfl, ?_⟩
+    dsimp only at h
+    by_cases c1 : optLe maxBound mb = true
+    · rw [if_pos c1] at h
+      simp only [↓reduceIte, GjkStep2.exit.injEq, GjkRes2.closest.injEq] at h
+      obtain ⟨⟨e1, e2, e3⟩, e4⟩ := h
+      refine Or.inl ⟨e3.symm, e1.symm, e2.symm, e4.symm, ?_⟩
+      cases maxBound with
+      | none => simp [optLe] at c1
+      | some old => exact ⟨old, rfl, by simpa [optLe] using c1⟩
+    · rw [if_neg c1] at h
+      by_cases c2 : (!isFinite (-dir.dot (fs dir).point)) = true
+      · rw [if_pos c2] at h; simp at h
+      · rw [if_neg c2] at h
+        by_cases c3 : optLt maxDist (-dir.dot (fs dir).point) = true
+        · rw [if_pos c3] at h; simp at h
+        · rw [if_neg c3] at h
+          simp only [Bool.not_true, Bool.false_and, Bool.false_eq_true, ↓reduceIte] at h
+          by_cases c4 : mb - -dir.dot (fs dir).point ≤ Num.sqrt epsTol * mb
+          · rw [if_pos c4] at h
+            simp only [GjkStep2.exit.injEq, GjkRes2.closest.injEq] at h
+            obtain ⟨⟨e1, e2, e3⟩, e4⟩ := h
+            exact Or.inr (Or.inl ⟨e3.symm, e1.symm, e2.symm, e4.symm, c4⟩)
+          · rw [if_neg c4] at h
+            rcases ha : s.addPoint (fs dir) with _ | ⟨s1, b⟩
+            · rw [ha] at h; simp at h
+            · rw [ha] at h
+              cases b with
+              | false =>
+                simp only [↓reduceIte, GjkStep2.exit.injEq, GjkRes2.closest.injEq] at h
+                obtain ⟨⟨e1, e2, e3⟩, e4⟩ := h
+                exact Or.inr (Or.inr (Or.inl ⟨e3.symm, s1, rfl, e1.symm, e2.symm, e4.symm⟩))
+              | true =>
+                dsimp only at h
+                rcases hp : s1.projectOriginAndReduce with _ | ⟨s2, pr⟩
+                · rw [hp] at h; simp at h
+                · rw [hp] at h
+                  dsimp only at h
+                  by_cases c5 : s2.dim = 2
+                  · rw [if_pos c5] at h
+                    by_cases c6 : epsTol ≤ -dir.dot (fs dir).point
+                    · rw [if_pos c6] at h
+                      simp only [↓reduceIte, GjkStep2.exit.injEq, GjkRes2.closest.injEq] at h
+                      obtain ⟨⟨e1, e2, e3⟩, e4⟩ := h
+                      exact Or.inr (Or.inr (Or.inr ⟨e3.symm, s1, s2, pr, rfl, hp, c5, c6, e1.symm, e2.symm, e4.symm⟩))
+                    · rw [if_neg c6] at h; simp at h
+                  · rw [if_neg c5] at h; simp at h
+
+/-- **certificate of the precision exit** (2-D): with `dir = -proj/|proj|`, `max_bound = |proj|` and the support contract, the
+test `max_bound - min_bound ≤ ε_rel·max_bound` (`0 ≤ ε_rel ≤ 1`) implies that every point of the obstacle is at least
+`(1 - ε_rel)·max_bound` from the origin, while `proj` (a point of the obstacle when the simplex vertices are) is exactly
+`max_bound` away: the reported gap `|w1 - w2| = |proj|` overestimates the true separation by at most the factor `ε_rel`. -/
+theorem gjk_precise_certificate2 (hs : LawfulSqrt sq) (C : V2 K → Prop) (fs : V2 K → CSO2 K) (hsup : SupportsCSO2 C fs)
+    (proj dir : V2 K) (mb epsRel : K) (h0 : 0 ≤ epsRel) (h1 : epsRel ≤ 1) :
+    letI := fieldNum K sq
+    tryNewAndGet2 proj.neg epsTol = some (dir, mb) →
+    mb - (-(dir.dot (fs dir).point)) ≤ epsRel * mb →
+    mb * mb = proj.x * proj.x + proj.y * proj.y ∧
+    ∀ c, C c → ((1 - epsRel) * mb) * ((1 - epsRel) * mb) ≤ c.x * c.x + c.y * c.y := by
+  letI := fieldNum K sq
+  intro ht htest
+  obtain ⟨hunit, hmb, hnn, _⟩ := tryNewAndGet2_spec sq hs proj.neg dir epsTol mb ht
+  refine ⟨by rw [hnn]; simp only [V2.neg]; ring, ?_⟩
+  have hlow : (1 - epsRel) * mb ≤ -(dir.dot (fs dir).point) := by linarith
+  exact gjk_lower_bound2 C dir ((1 - epsRel) * mb) hunit (mul_nonneg (by linarith) hmb.le)
+    (fun c hc => by have := hsup dir c hc; simp only [V2.dot] at hlow; linarith)
+
+
+/-! ## non-vacuity of the hypotheses -/
+
+/-- `Vs2Ok` holds for a genuine triangle simplex (vertices (2,1), (-1,1), (0,-2): the origin is inside) -/
+example : Vs2Ok (K := ℚ) ⟨0, 1, 2, 0, 0, 0, ⟨⟨2, 1⟩, ⟨2, 1⟩, ⟨0, 0⟩⟩, ⟨⟨-1, 1⟩, ⟨0, 1⟩, ⟨1, 0⟩⟩, ⟨⟨0, -2⟩, ⟨0, 0⟩, ⟨0, 2⟩⟩, 0, 0, 2⟩ := by
+  intro _; simp only [C05.Tri2Ok]; norm_num
+/-- `Vs3Ok` for the triangle (1,0,0), (0,1,0), (0,0,1) -/
+example : Vs3Ok (K := ℚ) ⟨0, 1, 2, 3, 0, 0, 0, 0, ⟨⟨1, 0, 0⟩, ⟨1, 0, 0⟩, ⟨0, 0, 0⟩⟩, ⟨⟨0, 1, 0⟩, ⟨0, 1, 0⟩, ⟨0, 0, 0⟩⟩,
+    ⟨⟨0, 0, 1⟩, ⟨0, 0, 1⟩, ⟨0, 0, 0⟩⟩, ⟨⟨0, 0, 0⟩, ⟨0, 0, 0⟩, ⟨0, 0, 0⟩⟩, 0, 0, 0, 2⟩ := by
+  intro _; simp only [C05.Tri3Ok]; norm_num
+/-- the support contract is satisfiable: a one-point obstacle with the constant support map -/
+example : SupportsCSO3 (K := ℚ) (fun c => c = ⟨1, 2, 3⟩) (fun _ => ⟨⟨1, 2, 3⟩, ⟨1, 2, 3⟩, ⟨0, 0, 0⟩⟩) := by
+  intro dir c hc; subst hc; exact le_refl _
+example : SupportsCSO2 (K := ℚ) (fun c => c = ⟨1, 2⟩) (fun _ => ⟨⟨1, 2⟩, ⟨1, 2⟩, ⟨0, 0⟩⟩) := by
+  intro dir c hc; subst hc; exact le_refl _
+/-- the hypotheses of `gjk_lower_bound3`: unit direction `(0,0,-1)`, obstacle `{z ≥ 2}`, `min_bound = 2` -/
+example : ∀ c : V3 ℚ, 2 ≤ c.z → (2 : ℚ) * 2 ≤ c.x * c.x + c.y * c.y + c.z * c.z :=
+  gjk_lower_bound3 (fun c => 2 ≤ c.z) ⟨0, 0, -1⟩ 2 (by norm_num) (by norm_num) (fun c hc => by simp only; linarith)
 
 end C01
